@@ -1,4 +1,4 @@
-CONSTANTS Mags = {1, 2} Pages <- PagesA Rows = {1, 2, 24} Cids = {1, 2} Flofs = {1} MaxPk = 6
+CONSTANTS Mags = {1, 2} Pages <- PagesA Rows = {1, 2, 24} Cids = {1, 2} Flofs = {1} FaultKinds = {} MaxFaults = 0 MaxPk = 6
 SPECIFICATION Spec
 CONSTRAINT Bounded
 INVARIANTS OneVersion
